@@ -1,7 +1,7 @@
 // Part 7 (pointcodec.go): the flag DISPATCH of the point codecs (ecc/<curve>/marshal.go) -> Gen/PointCodec/<Curve>.lean (C07, Props/C07_codec_gen).
 //
 // Translated statement by statement, per curve package: `isZeroed`, `isCompressed`, `isMaskInvalid` (when present),
-// `(*G1Affine).Bytes`, `RawBytes`, `setBytes`, `SetBytes` (secp256k1, which has no flag block: `RawBytes`, `setBytes`, `SetBytes` only). Value semantics: a byte slice / byte array is a `List UInt8`, the receiver is the
+// `(*G1Affine).Bytes`, `RawBytes`, `setBytes`, `SetBytes`, the same methods of `*G2Affine` for bw6-633 / bw6-761 (G2 over the base field; secp256k1, which has no flag block: `RawBytes`, `setBytes`, `SetBytes` only). Value semantics: a byte slice / byte array is a `List UInt8`, the receiver is the
 // pair of coordinates (pX, pY), `setBytes` returns `Except GoErr (pX × pY × consumed)`.
 // Everything on base-field elements is a PARAMETER (structure `Prims F` of Model/PointCodecGo.lean): SetZero / IsZero, SetBytesCanonical,
 // BigEndian.PutElement, Square, Mul, Add, Neg, Sqrt, LexicographicallyLargest, bCurveCoeff, and IsInSubGroup of the point.
@@ -23,6 +23,9 @@ import (
 )
 
 var pointCodecDirs = []string{"ecc/bn254", "ecc/grumpkin", "ecc/stark-curve", "ecc/bls12-377", "ecc/bls12-381", "ecc/bls24-315", "ecc/bls24-317", "ecc/bw6-633", "ecc/bw6-761", "ecc/secp256k1"}
+
+// packages whose G2 coordinates are base-field elements (the G2 text is the G1 text with the twist coefficient): G2 is translated too
+var pcG2Fp = map[string]bool{"ecc/bw6-633": true, "ecc/bw6-761": true}
 
 type pcKind int
 
@@ -307,9 +310,9 @@ func (c *pcCtx) elemExpr(e ast.Expr) string {
 		if x, ok := c.vars[v.Name]; ok && x.kind == pcElem {
 			return v.Name
 		}
-		if v.Name == "bCurveCoeff" {
+		if v.Name == "bCurveCoeff" || v.Name == "bTwistCurveCoeff" {
 			if _, shadow := c.vars[v.Name]; !shadow {
-				return "P.bCurveCoeff"
+				return "P." + v.Name
 			}
 		}
 	case *ast.SelectorExpr:
@@ -932,7 +935,7 @@ func runPointCodec() {
 						fmt.Fprintf(&b, "@[reducible] def %s : UInt8 := %d\n", n.Name, k)
 						continue
 					}
-					if strings.HasPrefix(n.Name, "SizeOfG1") && vs.Type == nil {
+					if (strings.HasPrefix(n.Name, "SizeOfG1") || (pcG2Fp[dir] && strings.HasPrefix(n.Name, "SizeOfG2"))) && vs.Type == nil {
 						k, ok := c.evalInt(vs.Values[i])
 						if !ok {
 							die("pointcodec: %s: size constant %s is not evaluable", dir, n.Name)
@@ -951,6 +954,8 @@ func runPointCodec() {
 					decls[fd.Name.Name] = fd
 				} else if pcRecvIs(fd, "G1Affine") {
 					decls["G1."+fd.Name.Name] = fd
+				} else if pcRecvIs(fd, "G2Affine") {
+					decls["G2."+fd.Name.Name] = fd
 				}
 			}
 		}
@@ -975,83 +980,89 @@ func runPointCodec() {
 			fmt.Fprintf(&b, "def %s%s : Bool :=\n%s\n\n", name, ps, c.stmts(fd.Body.List, ""))
 			c.funcs[name] = true
 		}
-		// encoders
-		for _, name := range []string{"Bytes", "RawBytes"} {
-			fd, ok := decls["G1."+name]
-			if !ok {
-				if _, flagged := c.bytes["mMask"]; name == "Bytes" && !flagged {
-					continue
-				}
-				die("pointcodec: %s: (*G1Affine).%s not found", dir, name)
-			}
-			c.fn, c.retKind, c.retType, c.vars = "G1."+name, "res", "List UInt8", map[string]*pcVar{}
-			if len(fd.Type.Params.List) != 0 || fd.Type.Results == nil || len(fd.Type.Results.List) != 1 || len(fd.Type.Results.List[0].Names) != 1 || fd.Type.Results.List[0].Names[0].Name != "res" {
-				die("pointcodec: %s: %s: unexpected signature", dir, name)
-			}
-			at, ok := fd.Type.Results.List[0].Type.(*ast.ArrayType)
-			if !ok || at.Len == nil {
-				die("pointcodec: %s: %s: result is not a fixed-size array", dir, name)
-			}
-			if el, ok := at.Elt.(*ast.Ident); !ok || el.Name != "byte" {
-				die("pointcodec: %s: %s: result is not a byte array", dir, name)
-			}
-			k, ok := c.evalInt(at.Len)
-			if !ok {
-				die("pointcodec: %s: %s: result length is not a constant", dir, name)
-			}
-			c.vars["res"] = &pcVar{kind: pcArray, n: k}
-			fmt.Fprintf(&b, "def G1_%s {F : Type} (P : Prims F) (pX pY : F) : List UInt8 :=\nlet res : List UInt8 := List.replicate %s 0;\n%s\n\n", name, c.intExpr(at.Len), c.stmts(fd.Body.List, ""))
+		groups := []string{"G1"}
+		if pcG2Fp[dir] {
+			groups = append(groups, "G2")
 		}
-		// decoder
-		{
-			fd, ok := decls["G1.setBytes"]
-			if !ok {
-				die("pointcodec: %s: (*G1Affine).setBytes not found", dir)
+		for _, grp := range groups {
+			// encoders
+			for _, name := range []string{"Bytes", "RawBytes"} {
+				fd, ok := decls[grp+"."+name]
+				if !ok {
+					if _, flagged := c.bytes["mMask"]; name == "Bytes" && !flagged {
+						continue
+					}
+					die("pointcodec: %s: (*G1Affine).%s not found", dir, name)
+				}
+				c.fn, c.retKind, c.retType, c.vars = grp+"."+name, "res", "List UInt8", map[string]*pcVar{}
+				if len(fd.Type.Params.List) != 0 || fd.Type.Results == nil || len(fd.Type.Results.List) != 1 || len(fd.Type.Results.List[0].Names) != 1 || fd.Type.Results.List[0].Names[0].Name != "res" {
+					die("pointcodec: %s: %s: unexpected signature", dir, name)
+				}
+				at, ok := fd.Type.Results.List[0].Type.(*ast.ArrayType)
+				if !ok || at.Len == nil {
+					die("pointcodec: %s: %s: result is not a fixed-size array", dir, name)
+				}
+				if el, ok := at.Elt.(*ast.Ident); !ok || el.Name != "byte" {
+					die("pointcodec: %s: %s: result is not a byte array", dir, name)
+				}
+				k, ok := c.evalInt(at.Len)
+				if !ok {
+					die("pointcodec: %s: %s: result length is not a constant", dir, name)
+				}
+				c.vars["res"] = &pcVar{kind: pcArray, n: k}
+				fmt.Fprintf(&b, "def %s_%s {F : Type} (P : Prims F) (pX pY : F) : List UInt8 :=\nlet res : List UInt8 := List.replicate %s 0;\n%s\n\n", grp, name, c.intExpr(at.Len), c.stmts(fd.Body.List, ""))
 			}
-			c.fn, c.retKind, c.retType, c.vars = "G1.setBytes", "set", "Except GoErr (F × F × Nat)", map[string]*pcVar{}
-			rs := fd.Type.Results
-			if rs == nil || len(rs.List) != 2 || len(rs.List[0].Names) != 0 {
-				die("pointcodec: %s: setBytes: unexpected result list", dir)
+			// decoder
+			{
+				fd, ok := decls[grp+".setBytes"]
+				if !ok {
+					die("pointcodec: %s: (*G1Affine).setBytes not found", dir)
+				}
+				c.fn, c.retKind, c.retType, c.vars = grp+".setBytes", "set", "Except GoErr (F × F × Nat)", map[string]*pcVar{}
+				rs := fd.Type.Results
+				if rs == nil || len(rs.List) != 2 || len(rs.List[0].Names) != 0 {
+					die("pointcodec: %s: setBytes: unexpected result list", dir)
+				}
+				if a, ok := rs.List[0].Type.(*ast.Ident); !ok || a.Name != "int" {
+					die("pointcodec: %s: setBytes: unexpected result type", dir)
+				}
+				if a, ok := rs.List[1].Type.(*ast.Ident); !ok || a.Name != "error" {
+					die("pointcodec: %s: setBytes: unexpected result type", dir)
+				}
+				ps := c.params(fd)
+				var names []string
+				for k := range c.vars {
+					names = append(names, k)
+				}
+				sort.Strings(names)
+				if strings.Join(names, ",") != "buf,subGroupCheck" {
+					die("pointcodec: %s: setBytes: unexpected parameters %v", dir, names)
+				}
+				fmt.Fprintf(&b, "def %s_setBytes {F : Type} (P : Prims F) (pX pY : F)%s : Except GoErr (F × F × Nat) :=\n%s\n\n", grp, ps, c.stmts(fd.Body.List, ""))
+				// SetBytes: `return p.setBytes(buf, true)`
+				sb, ok := decls[grp+".SetBytes"]
+				if !ok || len(sb.Body.List) != 1 {
+					die("pointcodec: %s: (*G1Affine).SetBytes not found or not a single return", dir)
+				}
+				ret, ok := sb.Body.List[0].(*ast.ReturnStmt)
+				if !ok || len(ret.Results) != 1 {
+					die("pointcodec: %s: SetBytes: not a single return", dir)
+				}
+				call, ok := ret.Results[0].(*ast.CallExpr)
+				if !ok || len(call.Args) != 2 {
+					die("pointcodec: %s: SetBytes: not a call of setBytes", dir)
+				}
+				sel, ok := call.Fun.(*ast.SelectorExpr)
+				a0, ok0 := call.Args[0].(*ast.Ident)
+				a1, ok1 := call.Args[1].(*ast.Ident)
+				if !ok || sel.Sel.Name != "setBytes" || !ok0 || !ok1 || a0.Name != "buf" || (a1.Name != "true" && a1.Name != "false") {
+					die("pointcodec: %s: SetBytes: not `p.setBytes(buf, <const>)`", dir)
+				}
+				if x, ok := sel.X.(*ast.Ident); !ok || x.Name != "p" || len(sb.Type.Params.List) != 1 || len(sb.Type.Params.List[0].Names) != 1 || sb.Type.Params.List[0].Names[0].Name != "buf" {
+					die("pointcodec: %s: SetBytes: unexpected receiver / parameters", dir)
+				}
+				fmt.Fprintf(&b, "def %s_SetBytes {F : Type} (P : Prims F) (pX pY : F) (buf : List UInt8) : Except GoErr (F × F × Nat) :=\n%s_setBytes P pX pY buf %s\n\n", grp, grp, a1.Name)
 			}
-			if a, ok := rs.List[0].Type.(*ast.Ident); !ok || a.Name != "int" {
-				die("pointcodec: %s: setBytes: unexpected result type", dir)
-			}
-			if a, ok := rs.List[1].Type.(*ast.Ident); !ok || a.Name != "error" {
-				die("pointcodec: %s: setBytes: unexpected result type", dir)
-			}
-			ps := c.params(fd)
-			var names []string
-			for k := range c.vars {
-				names = append(names, k)
-			}
-			sort.Strings(names)
-			if strings.Join(names, ",") != "buf,subGroupCheck" {
-				die("pointcodec: %s: setBytes: unexpected parameters %v", dir, names)
-			}
-			fmt.Fprintf(&b, "def G1_setBytes {F : Type} (P : Prims F) (pX pY : F)%s : Except GoErr (F × F × Nat) :=\n%s\n\n", ps, c.stmts(fd.Body.List, ""))
-			// SetBytes: `return p.setBytes(buf, true)`
-			sb, ok := decls["G1.SetBytes"]
-			if !ok || len(sb.Body.List) != 1 {
-				die("pointcodec: %s: (*G1Affine).SetBytes not found or not a single return", dir)
-			}
-			ret, ok := sb.Body.List[0].(*ast.ReturnStmt)
-			if !ok || len(ret.Results) != 1 {
-				die("pointcodec: %s: SetBytes: not a single return", dir)
-			}
-			call, ok := ret.Results[0].(*ast.CallExpr)
-			if !ok || len(call.Args) != 2 {
-				die("pointcodec: %s: SetBytes: not a call of setBytes", dir)
-			}
-			sel, ok := call.Fun.(*ast.SelectorExpr)
-			a0, ok0 := call.Args[0].(*ast.Ident)
-			a1, ok1 := call.Args[1].(*ast.Ident)
-			if !ok || sel.Sel.Name != "setBytes" || !ok0 || !ok1 || a0.Name != "buf" || (a1.Name != "true" && a1.Name != "false") {
-				die("pointcodec: %s: SetBytes: not `p.setBytes(buf, <const>)`", dir)
-			}
-			if x, ok := sel.X.(*ast.Ident); !ok || x.Name != "p" || len(sb.Type.Params.List) != 1 || len(sb.Type.Params.List[0].Names) != 1 || sb.Type.Params.List[0].Names[0].Name != "buf" {
-				die("pointcodec: %s: SetBytes: unexpected receiver / parameters", dir)
-			}
-			fmt.Fprintf(&b, "def G1_SetBytes {F : Type} (P : Prims F) (pX pY : F) (buf : List UInt8) : Except GoErr (F × F × Nat) :=\nG1_setBytes P pX pY buf %s\n\n", a1.Name)
 		}
 		fmt.Fprintf(&b, "end GV.Gen.PointCodec.%s\n", ln)
 		writeFile("PointCodec/"+ln+".lean", b.String())
